@@ -89,6 +89,8 @@ func collect() {
 	methodSource("p/kademlia", "", "DistanceCmp", "src_kad_distancecmp")
 	methodSource("p/kademlia", "", "DistanceLz", "src_kad_distancelz")
 	methodSource("p/kademlia", "", "LeadingZeros", "src_kad_leadingzeros")
+	methodSource(".", "PeerID", "UnmarshalText", "src_peerid_unmarshal")
+	methodSource(".", "PeerID", "MarshalText", "src_peerid_marshal")
 
 	// C02 / C03 / C06: P2PKE constants and the readiness guards as truth tables
 	constInt("p/p2pke", "MaxNonce", "ke_max_nonce")
